@@ -129,7 +129,8 @@ def extEvents : List Ev :=
 /-- event guards: the claim-paid notification needs a paid invoice, the CSV callback needs a registered
     watch; an `opening_tx_broadcasted` from the peer is applied to the record before the table rejects it -/
 def applyCtx (ev : Ev) (f : F) : Option F :=
-  if ev == E_OnClaimInvoicePaid then (if f.invoicePaid then some f else none)
+  -- (a notification before any invoice exists is possible in principle and hits no table edge)
+  if ev == E_OnClaimInvoicePaid then (if f.invoicePaid || f.openings == 0 then some f else none)
   else if ev == E_OnCsvPassed then (if f.csvWatch then some (f.setCsvWatch false) else none)
   else if ev == E_OnTxOpenedMessage then (if f.openingRec then none else some (f.setOpeningRec true))
   else some f
